@@ -110,6 +110,7 @@ type Monitor struct {
 	Refresh0Err      map[string]int // client -> error code of its last Refresh(0), if it was not followed by a success
 	relayConns       []*relayConn
 	dataConns        map[uint32]*TCPConn
+	pipeClosed       []pipeClose
 	unboundReported  map[uint32]bool
 	readCalls        map[string]int // reader -> number of read calls so far (handler completion)
 	anyMsg           map[string]bool // client|tid of every STUN message received, of any class
